@@ -609,37 +609,48 @@ class CancelScope(BaseCancelScope):
         """
         should_retry = False
         current = current_task()
-        for task in self._tasks:
-            # Always skip tasks that are already done (see issue #1111)
-            if task.done():
-                continue
 
-            should_retry = True
-            if task._must_cancel:  # type: ignore[attr-defined]
-                continue
+        # Walk the scope tree iteratively: the nesting depth of cancel scopes (two per
+        # level of nested task groups) is not bounded by the interpreter's recursion
+        # limit, and an exception raised from here would escape from
+        # TaskGroup.__aexit__() before the child tasks have been waited on
+        scopes = [self]
+        while scopes:
+            scope = scopes.pop()
+            for task in scope._tasks:
+                # Always skip tasks that are already done (see issue #1111)
+                if task.done():
+                    continue
 
-            # The task is eligible for cancellation if it has started and isn't in the
-            # middle of a step (a cancellation request made then could only be delivered
-            # at the task's next await, which may well be outside of this scope)
-            if (
-                task is not current
-                and not _task_running(task)
-                and (task is self._host_task or _task_started(task))
-            ):
-                waiter = task._fut_waiter  # type: ignore[attr-defined]
-                if not isinstance(waiter, asyncio.Future) or not waiter.done():
-                    task.cancel(origin._cancel_reason)
-                    if (
-                        task is origin._host_task
-                        and origin._pending_uncancellations is not None
-                    ):
-                        origin._pending_uncancellations += 1
+                should_retry = True
+                if task._must_cancel:  # type: ignore[attr-defined]
+                    continue
 
-        # Deliver cancellation to child scopes that aren't shielded or running their own
-        # cancellation callbacks
-        for scope in self._child_scopes:
-            if not scope._shield and not scope.cancel_called:
-                should_retry = scope._deliver_cancellation(origin) or should_retry
+                # The task is eligible for cancellation if it has started and isn't in
+                # the middle of a step (a cancellation request made then could only be
+                # delivered at the task's next await, which may well be outside of this
+                # scope)
+                if (
+                    task is not current
+                    and not _task_running(task)
+                    and (task is scope._host_task or _task_started(task))
+                ):
+                    waiter = task._fut_waiter  # type: ignore[attr-defined]
+                    if not isinstance(waiter, asyncio.Future) or not waiter.done():
+                        task.cancel(origin._cancel_reason)
+                        if (
+                            task is origin._host_task
+                            and origin._pending_uncancellations is not None
+                        ):
+                            origin._pending_uncancellations += 1
+
+            # Deliver cancellation to child scopes that aren't shielded or running their
+            # own cancellation callbacks
+            scopes.extend(
+                child_scope
+                for child_scope in scope._child_scopes
+                if not child_scope._shield and not child_scope.cancel_called
+            )
 
         # Schedule another callback if there are still tasks left
         if origin is self:
